@@ -28,7 +28,7 @@ struct Opts { static constexpr quill::QueueType queue_type = quill::QueueType::U
 using FrontendT = quill::FrontendImpl<Opts>; using LoggerT = quill::LoggerImpl<Opts>;
 static int child(int threads, int n, bool sleepy, std::string const& dir)
 {
-  alarm(60);
+  alarm(150);
   quill::BackendOptions bo; bo.sleep_duration = sleepy ? std::chrono::microseconds{20000} : std::chrono::microseconds{0};
   quill::Backend::start(bo);
   std::string f = dir + "/out.log";
@@ -53,8 +53,8 @@ static int child(int threads, int n, bool sleepy, std::string const& dir)
     if (!main_seen) problems += " the main thread's statement is missing;"; }
   // C20: the contexts of the exited threads are reclaimed once they are drained (only the main thread's context stays)
   size_t ctx = 99;
-  for (int spin = 0; spin < 400; ++spin) { { quill::detail::LockGuard const lock{quill::detail::ThreadContextManager::instance()._spinlock}; ctx = quill::detail::ThreadContextManager::instance()._thread_contexts.size(); } if (ctx == 1) break; std::this_thread::sleep_for(std::chrono::milliseconds{5}); }
-  if (ctx != 1) problems += " " + std::to_string(ctx) + " thread contexts registered 2 s after all threads exited and everything was flushed (expected 1);";
+  for (int spin = 0; spin < 6000; ++spin) { { quill::detail::LockGuard const lock{quill::detail::ThreadContextManager::instance()._spinlock}; ctx = quill::detail::ThreadContextManager::instance()._thread_contexts.size(); } if (ctx == 1) break; std::this_thread::sleep_for(std::chrono::milliseconds{5}); }
+  if (ctx != 1) problems += " " + std::to_string(ctx) + " thread contexts registered 30 s after all threads exited and everything was flushed (expected 1);";
   if (!problems.empty()) { std::ofstream r(dir + "/result.txt"); r << problems.substr(0, 1500); }
   _exit(problems.empty() ? 0 : 1);
 }
